@@ -22,6 +22,9 @@ type c14Case struct {
 	// Tail: raw text appended to the line (after a blank) that leaves a quote or an escape open: the line has no
 	// reading as a list of words and must be rejected, whatever complete rule precedes the broken word
 	Tail string `json:"broken_tail,omitempty"`
+	// Twin: this list of words was derived from an accepted line by splitting its words at blanks (it was parsed
+	// right after that line)
+	Twin bool `json:"twin_of_a_quoted_line,omitempty"`
 }
 
 var c14Tails = []string{"'oops", "\"x y", "\\", "'-k key", "-k 'foo", "\"-F auid>=1000 -k users", "-F 'uid=0", "x\\", "'"}
@@ -351,6 +354,50 @@ func c14One(c *mon.Ctx, k *c14Case) {
 		return
 	}
 	c.Add("lines_accepted_faithfully", 1)
+	// (2) the result belongs to the caller: after the caller has changed it, parsing the same line again still
+	// gives the rule of the line
+	switch m := r.(type) {
+	case *rule.DeleteAllRule:
+		m.Keys = append(m.Keys, "changed-by-caller")
+	case *rule.FileWatchRule:
+		m.Path += "/changed-by-caller"
+		m.Keys = append(m.Keys, "changed-by-caller")
+		m.Permissions = append(m.Permissions, rule.ExecuteAccessType)
+	case *rule.SyscallRule:
+		m.Keys = append(m.Keys, "changed-by-caller")
+		m.Syscalls = append(m.Syscalls, "changed-by-caller")
+		for i := range m.Filters {
+			m.Filters[i].RHS += "-changed-by-caller"
+		}
+		m.List, m.Action = "changed", "changed"
+	}
+	r2, err2 := flags.Parse(k.Line)
+	c.Add("lines_parsed_again_after_the_result_was_changed", 1)
+	if err2 != nil {
+		c.Violation("second-parse-differs", fmt.Sprintf("the line was accepted the first time and is rejected the second time (%v)\n  line: %s", err2, clipStr(k.Line, 300)), k)
+		return
+	}
+	if d := c14Equal(r2, exp.Rule, exp.Alts); d != "" {
+		c.Violation("second-parse-differs", fmt.Sprintf("parsing the same line again (after the caller changed the first result) returns a rule that does not reflect the line: %s\n  line: %s", d, clipStr(k.Line, 300)), k)
+		return
+	}
+	// (3) the twin line: the same characters without the quotes that held words with blanks together is a
+	// DIFFERENT list of words and is judged on its own - right after the quoted line, in the same process
+	if !k.Twin {
+		var argv2 []string
+		changed := false
+		for _, a := range k.Argv {
+			f := strings.FieldsFunc(a, func(r rune) bool { return r == ' ' || r == '\t' || r == '\n' })
+			if len(f) != 1 || f[0] != a {
+				changed = true
+			}
+			argv2 = append(argv2, f...)
+		}
+		if changed {
+			c.Add("twin_lines_without_the_quotes", 1)
+			c14One(c, &c14Case{Argv: argv2, Bare: true, Twin: true})
+		}
+	}
 }
 
 // ---- generator ----
@@ -511,7 +558,7 @@ func c14Gen(r *mon.Rand) []string {
 func init() {
 	register(&mon.CheckSpec{
 		ID: "C14", Level: "exploration",
-		Rule: "cases = argv lists built from a grammar (-a/-A in both orders and with bad parts, -F with valid fields and junk before the field name, every operator and operator look-alike, values containing spaces, tabs, newlines, '=', operator characters, quotes, backslashes; -C; -S/-k comma lists; -p; -w; -D; repeated single-valued flags; stray positional words, '-', '--', unknown flags at every position; delete/watch/syscall flags mixed two and three ways; a flag missing its argument; a broken last word that leaves a quote or a backslash escape open) joined with the harness's own POSIX single-quote quoting, so the argv is known independently of the library's tokenizer. The harness interprets the argv itself: either 'must be rejected' (with the reason) or the exact rule a faithful parse returns. distinct_nontrivial = distinct lines that contain a quoted argument, a stray word, a repeated flag or a filter whose value holds an operator character or blank.",
+		Rule: "cases = argv lists built from a grammar (-a/-A in both orders and with bad parts, -F with valid fields and junk before the field name, every operator and operator look-alike, values containing spaces, tabs, newlines, '=', operator characters, quotes, backslashes; -C; -S/-k comma lists; -p; -w; -D; repeated single-valued flags; stray positional words, '-', '--', unknown flags at every position; delete/watch/syscall flags mixed two and three ways; a flag missing its argument; a broken last word that leaves a quote or a backslash escape open) joined with the harness's own POSIX single-quote quoting, so the argv is known independently of the library's tokenizer. Every faithfully accepted line is parsed a second time after the caller changed the returned rule (the second result must again be the rule of the line), and the twin line that has the same characters without the quotes around words with blanks is judged right afterwards in the same process. The harness interprets the argv itself: either 'must be rejected' (with the reason) or the exact rule a faithful parse returns. distinct_nontrivial = distinct lines that contain a quoted argument, a stray word, a repeated flag or a filter whose value holds an operator character or blank.",
 		Assumptions: []string{
 			"an error result is always acceptable (statement: error OR faithful rule); the accepted fraction is reported and a run that accepts nothing is inconclusive",
 			"blanks around list items and between a filter's field name and its operator are compared trimmed (the value of a filter is compared exactly); a repeated single-valued flag with identical values is accepted",
